@@ -99,6 +99,37 @@ CLAIMED["C27"] = ("py", "TLC model checking of LazyConv.tla (explicit Python hea
 CLAIMED["C28"] = ("py", "TLC trace validation of the pure-Python helpers against SerClassic/BigInt/TreeHash/Interp",
     "Recorded calls of sexp_to_bytes, the stream deserializers, int_to_bytes/int_from_bytes, curry/uncurry/curry_hash and runs of curried programs are validated by TracePy.tla / TracePyRun.tla: bytes = Encode, accept set and tree = the classic decode machine and the Rust decoder, integers = ZToAtom/ZFromAtom, curry_hash = TH(curried program), uncurry(curry) = identity, curried run = module run on prepended arguments (both re-executed by Interp).", PYNOTE, "5 C28")
 
+
+def _more(pid, tech, text):
+    e, t, x, n, r = CLAIMED[pid]
+    CLAIMED[pid] = (e, t + tech, x + " " + text, n, r)
+
+MCI = ("MCInterp.tla additionally enumerates a bounded universe of programs (every operator at its arities over boundary alphabets, "
+       "apply / ((X)) / improper forms, guards, unknown operators) under the configurations of all relational properties: TLC checks the "
+       "properties as invariants of the specification (self-composition) and every (program, configuration, budget) is replayed into "
+       "run_program; programs on which the code disagrees are re-recorded and decided by TraceRun.tla.")
+for _p in ("C01", "C02", "C07", "C08", "C11", "C25", "C30", "C31"):
+    _more(_p, " + TLC model checking of a bounded program universe (MCInterp.tla) replayed into run_program", MCI)
+_more("C01", " + RefEval.tla (big-step reference semantics = machine, MCRefEval)",
+      "RefEval.tla is a big-step transcription of the reference evaluator; TLC checks machine = reference on the same universe (named adapters list the deliberate deviations).")
+MCO = ("MCOps.tla enumerates every non-cryptographic operator x argument lists of arity 0..3 over boundary alphabets (limb boundaries, long atoms, shift counts) "
+       "x both cost models x budgets {unlimited, cost, cost-1}; TLC checks design-level laws and every case is replayed into ChiaDialect::op.")
+for _p in ("C02", "C10", "C11", "C25"):
+    _more(_p, " + TLC enumeration of operator calls (MCOps.tla) replayed into ChiaDialect::op", MCO)
+_more("C07", " + MCF9.tla (design-level reproduction of finding F9)",
+      "The restriction-sensitive generator covers modpow, operand sizes at the LIMITS/DISABLE_OP bounds (incl. sign-byte spellings), BLS scalars, unknown operators, non-canonical guard arguments, invalid points and 21-deep guards; MCF9.tla shows at design level that CANONICAL_INTS alone is not a pure restriction (known finding F9) and that it is one together with NO_UNKNOWN_OPS.")
+_more("C09", " + MCUnknown.tla (TLC) + ApaUnknown.tla (Apalache, unbounded integers)",
+      "MCUnknown enumerates opcode x argument-length classes (invariants: code rule = published rule outside the corner, dispatch, classes) and every case is replayed; ApaUnknown proves over unbounded integers that the checked rule equals the published one, that the wrapping rule equals it below 2^64, and that only the corner (product >= 2^64 with low 64 bits <= 2^32-1) differs, and exhibits a corner witness.")
+_more("C21", " + ApaVarint.tla (Apalache: widths partition the 56-bit range)",
+      "ApaVarint proves for all integers that exactly one minimal width fits each in-range value and that widths are nested.")
+_more("C23", " + MCShaTree.tla (TLC) + ApaShaTree.tla (Apalache, inductive over all trees)",
+      "Trees are also run with equal sub-trees stored as one node and as doubling trees (cost must not depend on sharing enough to exceed ChiaLisp); MCShaTree checks the linearity constants of both costs on all small trees, ApaShaTree proves by induction over (pairs, atoms, bytes) that the native cost formula stays below the ChiaLisp one for every tree under both cost models.")
+_more("C05", "", "Restriction shapes (256-byte factors, products over 1024 bytes with LIMITS) and deep environment paths (7/15/23/31 steps) are part of the profile.")
+_more("C06", "", "A check-order block crosses every zero-divisor spelling, pair and oversized operands (256/257/2048/2049 bytes) with budgets around the operator's cost.")
+_more("C13", "", "A heap excess at run level that is explained by the call site of known finding F5 (bytes copied by substr on inline atoms, counted by the harness) is reported as F5; any other excess is a violation.")
+_more("C26", "", "Every deser case is repeated through the documented wrappers clvm_rs.serde.deserialize / serialize with the same options.")
+_more("C27", "", "Storage classes with a short-lived second reference to fresh children (one object as both children, LRU views, last-held slot) are among the wrappers.")
+
 NOT_YET = "not claimed yet in this round: the specification module / engine for it is still being built (DESIGN.md A.7)"
 NA = {
     "C32": "agreement with independent implementations of BLS12-381/secp/keccak cannot be decided by a TLA+ specification, and no independent library (py_ecc, python-ecdsa, pycryptodome) is installed; see DESIGN.md section 6",
